@@ -33,17 +33,18 @@ type obs struct {
 	class string // nil | UEOF | Corrupted | other
 	out   []byte
 	used  int
+	msg   string // implementation's error text, if any
 }
 
 type result struct {
-	c            tcase
-	model, lib   obs
-	goo          obs
-	skipped      bool
-	modelMs      float64
-	disagreeML   string // model vs libbrotli
-	disagreeGL   string // go vs libbrotli
-	disagreeGM   string // go vs model
+	c          tcase
+	model, lib obs
+	goo        obs
+	skipped    bool
+	modelMs    float64
+	disagreeML string // model vs libbrotli
+	disagreeGL string // go vs libbrotli
+	disagreeGM string // go vs model
 }
 
 func hexs(b []byte) string {
@@ -101,6 +102,9 @@ func goDecode(data []byte, capOut int) (o obs) {
 			if err != nil {
 				o.class = goClass(err)
 				o.used = int(r.InputOffset)
+				if err != io.EOF {
+					o.msg = err.Error()
+				}
 				return
 			}
 			if len(o.out) > capOut {
@@ -130,7 +134,8 @@ type driver struct {
 }
 
 func startDriver(path, dict string) *driver {
-	cmd := exec.Command(path, dict)
+	// the extracted code recurses over long lists: lift the stack limit
+	cmd := exec.Command("/bin/sh", "-c", "ulimit -s unlimited 2>/dev/null || ulimit -s 1000000; exec \"$0\" \"$1\"", path, dict)
 	stdin, _ := cmd.StdinPipe()
 	stdout, _ := cmd.StdoutPipe()
 	cmd.Stderr = os.Stderr
@@ -192,7 +197,11 @@ func obsStr(o obs) string {
 	if len(h) > 96 {
 		h = h[:96] + fmt.Sprintf("...(%d bytes)", len(o.out))
 	}
-	return fmt.Sprintf("%s out=%s used=%d", o.class, h, o.used)
+	m := ""
+	if o.msg != "" {
+		m = " msg=" + fmt.Sprintf("%q", o.msg)
+	}
+	return fmt.Sprintf("%s out=%s used=%d%s", o.class, h, o.used, m)
 }
 
 func runMain(args []string) {
@@ -203,18 +212,34 @@ func runMain(args []string) {
 	scale := fs.Int("scale", 1, "scale of the generated corpus")
 	workers := fs.Int("workers", 12, "parallel model processes")
 	report := fs.String("report", "/tmp/brotli-agent/report.txt", "report file")
-	sets := fs.String("sets", "valid,trunc,mut,short,craft,testdata", "case sets")
+	sets := fs.String("sets", "valid,trunc,mut,short,craft,xforms,testdata", "case sets")
 	capOut := fs.Int("cap", 1<<20, "skip cases whose output exceeds this")
 	one := fs.String("hex", "", "run a single hex input and print the three observations")
+	minHex := fs.String("min", "", "minimise a hex input on which brotli.Reader and libbrotli disagree")
 	fs.Parse(args)
 
+	if *minHex != "" {
+		data, err := hex.DecodeString(*minHex)
+		if err != nil {
+			panic(err)
+		}
+		fmt.Println(hexs(minimise(data, *capOut)))
+		return
+	}
 	if *one != "" {
+		if strings.HasPrefix(*one, "@") { // @file containing the hex
+			b, err := os.ReadFile((*one)[1:])
+			if err != nil {
+				panic(err)
+			}
+			*one = strings.TrimSpace(string(b))
+		}
 		data, err := hex.DecodeString(*one)
 		if err != nil {
 			panic(err)
 		}
 		d := startDriver(*drv, *dict)
-		fmt.Println("lib:  ", obsStr(libDecode(data, *capOut)))
+		fmt.Println("lib:  ", obsStr(libDecode(data, *capOut)), libErr(data, *capOut))
 		fmt.Println("go:   ", obsStr(goDecode(data, *capOut)))
 		fmt.Println("model:", obsStr(d.decode(0, data)))
 		return
@@ -334,13 +359,16 @@ func runMain(args []string) {
 			totalMs += r.modelMs
 			totalKB += float64(len(r.model.out)) / 1024
 		}
+		if strings.HasPrefix(r.c.kind, "valid") && r.lib.class != "nil" {
+			fmt.Fprintf(&rep, "NOTVALID %d kind=%s len=%d lib=%s\n", r.c.id, r.c.kind, len(r.c.data), obsStr(r.lib))
+		}
 		if r.disagreeML != "" || r.disagreeGL != "" || r.disagreeGM != "" {
 			fmt.Fprintf(&rep, "CASE %d kind=%s len=%d\n  input=%s\n  lib:   %s\n  go:    %s\n  model: %s\n", r.c.id, r.c.kind, len(r.c.data), hexs(r.c.data), obsStr(r.lib), obsStr(r.goo), obsStr(r.model))
 			if r.disagreeML != "" {
-				fmt.Fprintf(&rep, "  MODEL-vs-LIB: %s\n", r.disagreeML)
+				fmt.Fprintf(&rep, "  MODEL-vs-LIB: %s [%s]\n", r.disagreeML, libErr(r.c.data, *capOut))
 			}
 			if r.disagreeGL != "" {
-				fmt.Fprintf(&rep, "  GO-vs-LIB: %s\n", r.disagreeGL)
+				fmt.Fprintf(&rep, "  GO-vs-LIB: %s [%s]\n", r.disagreeGL, libErr(r.c.data, *capOut))
 			}
 			if r.disagreeGM != "" {
 				fmt.Fprintf(&rep, "  GO-vs-MODEL: %s\n", r.disagreeGM)
@@ -364,4 +392,58 @@ func runMain(args []string) {
 	os.MkdirAll(filepath.Dir(*report), 0o755)
 	os.WriteFile(*report, append(sum.Bytes(), rep.Bytes()...), 0o644)
 	fmt.Println("report:", *report)
+}
+
+// signature of a Go-vs-libbrotli disagreement
+func sig(data []byte, capOut int) string {
+	l := libDecode(data, capOut)
+	g := goDecode(data, 4*capOut)
+	d := compare(g, l, true)
+	if d == "" {
+		return ""
+	}
+	if i := strings.Index(d, "(len"); i >= 0 {
+		d = d[:i]
+	}
+	if strings.HasPrefix(d, "used") {
+		d = "used"
+	}
+	return d + " [" + libErr(data, capOut) + "] " + g.msg
+}
+
+// minimise shrinks an input while the disagreement signature stays the same:
+// drop tail bytes, drop inner bytes, clear bits.
+func minimise(data []byte, capOut int) []byte {
+	want := sig(data, capOut)
+	if want == "" {
+		return data
+	}
+	cur := append([]byte(nil), data...)
+	for changed := true; changed; {
+		changed = false
+		for len(cur) > 0 && sig(cur[:len(cur)-1], capOut) == want {
+			cur = cur[:len(cur)-1]
+			changed = true
+		}
+		for i := len(cur) - 1; i >= 0; i-- {
+			t := append(append([]byte(nil), cur[:i]...), cur[i+1:]...)
+			if sig(t, capOut) == want {
+				cur = t
+				changed = true
+			}
+		}
+		for i := len(cur) - 1; i >= 0; i-- {
+			for b := 7; b >= 0; b-- {
+				if cur[i]>>uint(b)&1 == 1 {
+					t := append([]byte(nil), cur...)
+					t[i] &^= 1 << uint(b)
+					if sig(t, capOut) == want {
+						cur = t
+						changed = true
+					}
+				}
+			}
+		}
+	}
+	return cur
 }
